@@ -1,0 +1,20 @@
+//go:build verif
+
+// Contracts for package channel (sim backend), read by the verification-condition generator
+// in /verif (govc). Comments only; compiled only with the build tag "verif".
+
+package channel
+
+// CalcID (C17): the hash input is the encoding of exactly the participants, then nonce, challenge duration, app, ledger flag
+// and virtual flag of the parameters - every field the statement lists, in a fixed order, and nothing else.
+//@ func (*backend).CalcID
+//@   requires p != nil && p.Nonce != nil
+//@   modifies *
+//@   panics true
+//@   callsite Encode :
+//@     (len(values) == 1 && typeof(values[0]) == typetag("wallet.AddressMapArray") && as(values[0], "wallet.AddressMapArray").Addr == p.Parts) ||
+//@     (len(values) == 5 && typeof(values[0]) == typetag("*big.Int") && payload(values[0]) == p.Nonce &&
+//@      typeof(values[1]) == typetag("uint64") && as(values[1], "uint64") == p.ChallengeDuration &&
+//@      typeof(values[2]) == typetag("channel.OptAppEnc") && as(values[2], "channel.OptAppEnc").App == p.App &&
+//@      typeof(values[3]) == typetag("bool") && as(values[3], "bool") == p.LedgerChannel &&
+//@      typeof(values[4]) == typetag("bool") && as(values[4], "bool") == p.VirtualChannel)
